@@ -71,7 +71,8 @@ def cases(shard, tier):
         if dt in ("int64", "float64", "bool"):
             # one object asked again and again (contiguous, and as a selection nothing has read yet)
             yield [lens, dt, 0, "seq", "contig"]
-            yield [lens, dt, 1, "seq", "view"]
+            for vk in ("view", "view_perm", "view_colrev", "view_colstep"):
+                yield [lens, dt, 1, "seq", vk]
 
 
 def _close(a, b, dts):
@@ -238,11 +239,9 @@ def _check_seq(acc, case, flat, rows):
     from npstructures import RaggedArray
     lens, dt, k, op, form = case
     acc.feature("same_object_sequence")
-    if form == "view":
-        back = [np.array([1], dtype=dt)] + rows[::-1]
-        big = RaggedArray(np.concatenate(back), [len(r) for r in back])
-        int(big.size)          # the parent has been asked its size (memoised) before the selection is taken
-        ra = big[:0:-1]
+    if form.startswith("view"):
+        from mc.checks.c09 import _pending_view
+        ra = _pending_view(form[4:], [r.tolist() for r in rows], dt)
     else:
         ra = RaggedArray(flat.copy(), list(lens))
     if sum(lens):
